@@ -735,7 +735,7 @@ def run(P, R, tier):
     ctype_subscripts(P, R)
     # a node moved into the live tree must not keep a pointer into the scratch tree that is about to be freed
     from . import c15, c16
-    c15.merge_details(P, Remap(R, {'C15.MPT.6': 'C14.OWN.4'}, keys=('parent-link',)))
+    c15.merge_details(P, Remap(R, {'C15.MPT.6': 'C14.OWN.4'}, keys=('parent-link', 'alias-refresh')))
     # every token loop of the parser leaves on end of input (a truncated file is reported, the parser does not spin)
     c16.lookahead(P, Remap(R, {'C16.LOOK.1': 'C14.MPT.4'}))
     error_branch_reads(P, R)
@@ -745,4 +745,6 @@ def run(P, R, tier):
     merge_position(P, R, pc)
     ownership(P, R)
     bounds(P, R)
+    # the parser and the merge keep nothing from one load (or one entry, or one nested call) to the next
+    rules.no_static_locals(P, R, 'C14.WMC.9', P.unit_fns(P.need_fn('conf_read').unit), 'configuration code')
     return EXPLANATION, ASSUMPTIONS
